@@ -317,6 +317,13 @@ def _pi_direction(q):
         return tuple(_S(v) for v in tab[q])
     r2, r3 = _S(2).sqrt(), _S(3).sqrt()
     base = {Fraction(1, 4): (r2 / 2, r2 / 2), Fraction(1, 6): (r3 / 2, _S(Fraction(1, 2))), Fraction(1, 3): (_S(Fraction(1, 2)), r3 / 2)}
+    if q.denominator in (5, 10):
+        r5 = _S(5).sqrt()
+        base.update({Fraction(1, 5): ((1 + r5) / 4, (10 - 2 * r5).sqrt() / 4), Fraction(2, 5): ((r5 - 1) / 4, (10 + 2 * r5).sqrt() / 4),
+                     Fraction(1, 10): ((10 + 2 * r5).sqrt() / 4, (r5 - 1) / 4), Fraction(3, 10): ((10 - 2 * r5).sqrt() / 4, (1 + r5) / 4)})
+    if q.denominator in (8, 12):
+        base.update({Fraction(1, 8): ((2 + r2).sqrt() / 2, (2 - r2).sqrt() / 2), Fraction(3, 8): ((2 - r2).sqrt() / 2, (2 + r2).sqrt() / 2),
+                     Fraction(1, 12): ((r2 * r3 + r2) / 4, (r2 * r3 - r2) / 4), Fraction(5, 12): ((r2 * r3 - r2) / 4, (r2 * r3 + r2) / 4)})
     for b, (cx, sy) in base.items():
         for quad in range(4):
             if q == b + Fraction(quad, 2):
